@@ -77,7 +77,11 @@ class UniformDriver:
             ice = UniformIce(n, valid_range=(-c['D'], 0), index_above=above, index_below=below)
             src = np.array([x0, y0, float(c['z0'])])
             dst = np.array([x0 + rho * ux, y0 + rho * uy, float(c['z1'])])
-            tr = Tracer3(src, dst, ice)
+            if (k + (above is None)) % 2 and all(float(v).is_integer() for v in list(src) + list(dst)):
+                # integer-typed endpoints (lists of python ints): results must not depend on the dtype
+                tr = Tracer3([int(v) for v in src], [int(v) for v in dst], ice)
+            else:
+                tr = Tracer3(src, dst, ice)
             sols = tr.solutions
             self.cases += 1
             if bool(tr.exists) != (len(sols) > 0):
